@@ -6,6 +6,8 @@ package main
 //
 //   c03RefBlocks  one row per block `if v := X.Ref; v != "" { … }` (the reference branch of a resolver):
 //                 function, owner X, variable v, number of top-level statements
+//   c03RefKeys    per block: the text of `key := …` (the in-progress key), the two arguments of the deferred
+//                 `loader.unvisitRef(key, value)` (the value handed to the queued callbacks) and the index of that statement
 //   c03RefTops    one row per top-level statement of such a block, in source order:
 //                 overwrite  it contains `*X = …` outside a function literal (the whole node, Ref included, is replaced)
 //                 retAfter   a return statement can be reached after that overwrite before the statement is left
@@ -163,7 +165,7 @@ func extractC03RefWrites(repo string) (string, error) {
 		fn, owner, v string
 		body          *ast.BlockStmt
 	}
-	var blocksOut, topsOut, writesOut []string
+	var blocksOut, topsOut, writesOut, keysOut []string
 	for _, decl := range file.Decls {
 		fd, ok := decl.(*ast.FuncDecl)
 		if !ok || fd.Body == nil {
@@ -224,6 +226,18 @@ func extractC03RefWrites(repo string) (string, error) {
 				}
 				return false
 			}
+			keyRhs, regKey, regVal, regIdx := "", "", "", 0
+			for idx, st := range b.body.List {
+				if as, ok := st.(*ast.AssignStmt); ok && as.Tok == token.DEFINE && len(as.Lhs) == 1 && len(as.Rhs) == 1 {
+					if id, ok := as.Lhs[0].(*ast.Ident); ok && id.Name == "key" {
+						keyRhs = txt(as.Rhs[0])
+					}
+				}
+				if ds, ok := st.(*ast.DeferStmt); ok && calleeName(ds.Call) == "unvisitRef" && len(ds.Call.Args) == 2 {
+					regKey, regVal, regIdx = txt(ds.Call.Args[0]), txt(ds.Call.Args[1]), idx
+				}
+			}
+			keysOut = append(keysOut, fmt.Sprintf("  (%q, %q, %q, %q, %d) -- %s", b.fn, keyRhs, regKey, regVal, regIdx, pos(b.body.Pos())))
 			for idx, st := range b.body.List {
 				has, ret, loop := c03After(st, isOW)
 				if loop {
@@ -314,8 +328,9 @@ func extractC03RefWrites(repo string) (string, error) {
 	b.WriteString("namespace KinModel.Gen\n\n")
 	b.WriteString("structure C03RefTop where\n  fn : String\n  owner : String\n  idx : Nat\n  overwrite : Bool\n  retAfter : Bool\n  hasReturn : Bool\n  restore : Bool\n  litCopy : Bool\n  deriving DecidableEq, Repr\n\n")
 	b.WriteString("structure C03RefWrite where\n  fn : String\n  kind : String\n  target : String\n  rhs : String\n  accounted : Bool\n  deriving DecidableEq, Repr\n\n")
-	fmt.Fprintf(&b, "-- rows: %d\n", len(blocksOut)+len(topsOut)+len(writesOut))
+	fmt.Fprintf(&b, "-- rows: %d\n", len(blocksOut)+len(keysOut)+len(topsOut)+len(writesOut))
 	b.WriteString("def c03RefBlocks : List (String × String × String × Nat) := [\n" + join(blocksOut) + "]\n\n")
+	b.WriteString("def c03RefKeys : List (String × String × String × String × Nat) := [\n" + join(keysOut) + "]\n\n")
 	b.WriteString("def c03RefTops : List C03RefTop := [\n" + join(topsOut) + "]\n\n")
 	b.WriteString("def c03RefWrites : List C03RefWrite := [\n" + join(writesOut) + "]\n\nend KinModel.Gen\n")
 	return b.String(), nil
